@@ -94,7 +94,9 @@ Definition monotone_flag (g : zstate) (weighted : bool) (gamma : Q) (levels : li
 
 (* per-case link between the state-level generate_graph and the list-level [aggregate] that
    C13_aggregation_preserves_Q is about: after the first local-moving phase, the edges of the
-   generated community graph are, as a multiset, the aggregation of the working graph's edges *)
+   generated community graph are, as a multiset, the aggregation of the working graph's edges.
+   Round 2: this is now a theorem (C13_generate_graph_aggregates); the flag is kept because it
+   still ties the evaluated model to the code on every case. *)
 Fixpoint part_index (x : nat) (parts : list (list nat)) (i : nat) : nat :=
   match parts with
   | [] => i
@@ -131,7 +133,9 @@ Definition agg_link_flag (g : zstate) (weighted : bool) (gamma : Q) (perms : lis
   end.
 
 (* per-case evaluation of the bookkeeping invariants L1-L3 of DESIGN Appendix B at the end of
-   the first local-moving phase, in the form the move-gain theorems use them:
+   the first local-moving phase (round 2: proved for every level, fuel and order as C13_bookkeeping
+   and C13_neighbor_weights_between; the flag is kept as a tie between model and code), in the
+   form the move-gain theorems use them:
    L1 node2com u = c  <->  u in inner_partition[c];  L2 _partition[c] = inner_partition[c] (the
    nodes' attribute sets are singletons at this level);  L3 Stot[c] = K_c (directed: Stot_in[c] =
    Kin_c, Stot_out[c] = Kout_c) computed directly on the working graph's edge multiset; and the
